@@ -683,6 +683,143 @@ def gen_date(rng, tier, add, pools):
     pools["date-agree"] = [hx(l) for l in lits]
 
 
+DUR_NEAR = ["PY", "PT", "P", "-P1Y", "P1.5Y", "PT1.S", "PT.5S", "PT0.5S", "P1YT", "PT1H1H", "P1YM", "PTS", "PT1S", "P1M2Y", "P1DT", "P-1Y",
+            "-P-1Y", "+P1Y", "P1Y2M3DT4H5M6.7S", "PT1M1H", "P1S", "PT1D", "P 1Y", "p1y", "P1Y ", " P1Y", "P01Y", "PT1.5.5S", "PT1H.5S", "P1Y1Y",
+            "PD", "-P", "-PT0S", "P0Y", "PT0S", "-P0D", "P1Y2M", "P1YT1M", "P1MT1M", "PT1M", "P1M", "PT", "P1Y2D", "P2D1Y", "PT1S1M", "P1H",
+            "PT1Y", "P1DT1D", "P1Y-2M", "P1Y2M3D4H", "T1H", "1Y", "", "-", "P.5Y", "PT5.S", "PT0.S", "PT.S", "P١Y", "P1Ｙ", "P1YT1.50S",
+            "P1Y2M3DT4H5M6S", "-P1Y2M3DT4H5M6.789S", "P99999D", "PT86400S", "PT1440M", "P1DT0H", "--P1Y", "P1Y2M3DT", "PT1H2M3", "P1Y2"]
+
+
+def dur_literal(rng):
+    neg = "-" if rng.random() < 0.25 else ""
+    date = "".join("%d%s" % (rng.choice([0, 1, 2, 12, 30, 365, rng.randrange(100)]), d) for d in "YMD" if rng.random() < 0.4)
+    time = "".join("%d%s" % (rng.choice([0, 1, 24, 60, rng.randrange(100)]), d) for d in "HM" if rng.random() < 0.3)
+    if rng.random() < 0.3:
+        time += "%d%sS" % (rng.randrange(100), ("." + str(rng.randrange(1, 1000))) if rng.random() < 0.4 else "")
+    if not date and not time:
+        date = "1D"
+    return neg + "P" + date + ("T" + time if time else "")
+
+
+DUR_WINDOWS = [("P1M", ["P27D", "P28D", "P29D", "P30D", "P31D", "P32D"]), ("P2M", ["P58D", "P59D", "P60D", "P61D", "P62D", "P63D"]),
+               ("P1Y", ["P364D", "P365D", "P366D", "P367D", "P12M", "P11M", "P13M"]), ("P5M", ["P149D", "P150D", "P151D", "P152D", "P153D", "P154D"]),
+               ("P3M", ["P88D", "P89D", "P90D", "P91D", "P92D", "P93D"]), ("P6M", ["P180D", "P181D", "P184D", "P185D"]),
+               ("P1M1D", ["P29D", "P32D", "P33D", "P1MT24H", "P1MT23H59M60S"]), ("P1D", ["PT24H", "PT23H", "PT25H", "PT1440M", "PT86400S", "PT86399S"]),
+               ("PT1H", ["PT60M", "PT59M", "PT61M", "PT3600S"]), ("P2M1DT12H", ["P60DT12H", "P61DT12H", "P62DT12H", "P63DT12H", "P64DT12H"])]
+
+
+def gen_duration(rng, tier, add, pools):
+    thorough = tier == "thorough"
+    lits = list(DUR_NEAR) + [dur_literal(rng) for _ in range(2000 if thorough else 300)]
+    for _ in range(2000 if thorough else 300):
+        l = dur_literal(rng)
+        p = rng.randrange(len(l) + 1)
+        r = rng.randrange(4)
+        if r == 0:
+            l = l[:p] + rng.choice(list("PTYMDHS.-+ 0") + ["٠"]) + l[p:]
+        elif r == 1 and p < len(l):
+            l = l[:p] + l[p + 1:]
+        elif r == 2:
+            q = list(l)
+            i, j = rng.randrange(len(q)), rng.randrange(len(q))
+            q[i], q[j] = q[j], q[i]
+            l = "".join(q)
+        else:
+            l = with_ws(rng, l)
+        lits.append(l)
+    for l in lits:
+        h = hx(l)
+        add("dur-xsv", "xsv duration " + h)
+        add("dur-pe", "pe duration " + h)
+        add("dur-pa", "pa duration " + h)
+    pools["duration-agree"] = [hx(l) for l in lits]
+    # order: the indeterminate windows, with time parts and negative durations
+    pool = []
+    for m, ds in DUR_WINDOWS:
+        pool.append(m)
+        pool += ds
+    pool += ["-" + x for x in rng.sample(pool, 14)] + ["P0D", "PT0S", "-PT0S", "PT0.5S", "PT0.6S", "PT1.5S", "PT1S"]
+    pool = list(dict.fromkeys(pool))
+    pairs = [(a, b) for a in pool for b in pool]
+    if not thorough:
+        near = set()
+        for m, ds in DUR_WINDOWS:
+            for x in [m] + ds:
+                for y in [m] + ds:
+                    near.add((x, y)); near.add(("-" + x, "-" + y))
+        pairs = list(near) + rng.sample(pairs, 1500)
+    for a, b in pairs:
+        add("dur-cmp", "cmp duration %s %s" % (hx(a), hx(b)))
+    # facets: every bound kind with the month value as bound and the day values as instances, and the other way round
+    for m, ds in DUR_WINDOWS:
+        for kind in ("minInclusive", "minExclusive", "maxInclusive", "maxExclusive"):
+            for bound, vals in [(m, ds)] + [(d, [m]) for d in ds]:
+                spec = "duration[%s=%s]" % (kind, bound)
+                for v in vals + [bound]:
+                    add("dur-facet", "%s %s %s" % (rng.choice(["pe", "pe", "pa"]), spec, hx(v)))
+        import re as _re
+        days = [x for x in ds if _re.match(r'P[0-9]+D$', x)]
+        if len(days) < 2:
+            continue
+        lo, hi = days[0], days[-1]
+        for spec in ("duration[minInclusive=%s][maxExclusive=%s]" % (lo, hi), "duration[minExclusive=%s;maxInclusive=%s]" % (lo, hi)):
+            for v in [m] + ds:
+                add("dur-facet", "pe %s %s" % (spec, hx(v)))
+
+
+def gen_b64_padding(rng, tier, add, pools):
+    """every final quartet shape  X?==  and  XX?=  over all 64 last data characters (unused bits must be zero)"""
+    for last in B64:
+        for lit in (rng.choice(B64) + last + "==", rng.choice(B64) + rng.choice(B64) + last + "=",
+                    "QUJD" + rng.choice(B64) + last + "==", "QUJD" + rng.choice(B64) + rng.choice(B64) + last + "=",
+                    rng.choice(B64) + " " + last + " = ="):
+            h = hx(lit)
+            for op in ("xsv", "dv", "pe", "xsc", "can"):
+                add("b64-pad", "%s base64Binary %s" % (op, h))
+            add("b64-pad", "b64 " + h)
+            add("b64-pad", "pa base64Binary[length=%d] %s" % (rng.randrange(1, 6), h))
+
+
+# the other date/time types that share XMLDateTime::compare: judged by the Spec on the timeline of the equivalent dateTime
+EQUIV = {}       # (type, hex literal) -> hex of the dateTime literal denoting the same starting instant
+
+
+def gtype_literal(rng, t):
+    """(literal, equivalent dateTime literal); fields may be out of range on purpose"""
+    y = rng.choice([1999, 2000, 2001, 2004, 1900, rng.randrange(1, 3000)])
+    mo = rng.choice([1, 2, 2, 3, 4, 12, 12, 13, 0, rng.randrange(1, 13)])
+    d = rng.choice([1, 1, 28, 29, 30, 31, 31, 32, 0, rng.randrange(1, 29)])
+    h, mi, sec = rng.choice([0, 0, 12, 23, 24, 25, rng.randrange(24)]), rng.choice([0, 0, 30, 59, 60]), rng.choice([0, 0, 30, 59, 61])
+    z = rng.choice(["", "", "Z", "+14:00", "-14:00", "+01:00", "-05:30", "+13:59", "+14:01", "+15:00", "-00:00"])
+    frac = rng.choice(["", "", ".5", ".50", ".125"])
+    if t == "gYear":
+        return "%04d%s" % (y, z), "%04d-01-01T00:00:00%s" % (y, z)
+    if t == "gYearMonth":
+        return "%04d-%02d%s" % (y, mo, z), "%04d-%02d-01T00:00:00%s" % (y, mo, z)
+    if t == "gMonthDay":
+        return "--%02d-%02d%s" % (mo, d, z), "2000-%02d-%02dT00:00:00%s" % (mo, d, z)
+    if t == "gDay":
+        return "---%02d%s" % (d, z), "2000-01-%02dT00:00:00%s" % (d, z)
+    if t == "gMonth":
+        return "--%02d%s" % (mo, z), "2000-%02d-01T00:00:00%s" % (mo, z)
+    return "%02d:%02d:%02d%s%s" % (h, mi, sec, frac, z), "2000-01-01T%02d:%02d:%02d%s%s" % (h, mi, sec, frac, z)
+
+
+def gen_gtypes(rng, tier, add, pools):
+    thorough = tier == "thorough"
+    for t in ("gYear", "gYearMonth", "gMonthDay", "gDay", "gMonth", "time"):
+        lits = [gtype_literal(rng, t) for _ in range(400 if thorough else 70)]
+        valid = []
+        for l, e in lits:
+            EQUIV[(t, hx(l))] = hx(e)
+            add("g-lex", "xsv %s %s" % (t, hx(l)))
+            add("g-lex", "pe %s %s" % (t, hx(l)))
+        pool = [l for l, e in lits][:26 if not thorough else 60]
+        for a in pool:
+            for b in pool:
+                add("g-cmp", "cmp %s %s %s" % (t, hx(a), hx(b)))
+
+
 def gen_combinators(rng, tier, add, pools):
     thorough = tier == "thorough"
     leaves = ["int", "boolean", "double", "unsignedByte", "decimal", "negativeInteger"]
@@ -741,6 +878,9 @@ def gen_cases(rng, tier):
     gen_dt_order(rng, tier, add, pools)
     gen_float(rng, tier, add, pools)
     gen_date(rng, tier, add, pools)
+    gen_duration(rng, tier, add, pools)
+    gen_b64_padding(rng, tier, add, pools)
+    gen_gtypes(rng, tier, add, pools)
     gen_combinators(rng, tier, add, pools)
     return cases, pools
 
@@ -749,6 +889,7 @@ def type_base(spec):
     return spec.split("[", 1)[0]
 
 
+GTYPES = ("gYear", "gYearMonth", "gMonthDay", "gDay", "gMonth", "time")
 DEC_LIKE = {"decimal", "double", "integer", "nonPositiveInteger", "negativeInteger", "nonNegativeInteger", "positiveInteger",
             "long", "int", "short", "byte", "unsignedLong", "unsignedInt", "unsignedShort", "unsignedByte"}
 
@@ -759,6 +900,22 @@ def oracle_request(req):
     op = a[0]
     if op in ("pe", "pa") and (a[1].startswith("L(") or a[1].startswith("U(")):
         return "spec_comb %s %s" % (a[1], a[2])
+    if a[1] in GTYPES:
+        if op in ("xsv", "pe") and (a[1], a[2]) in EQUIV:
+            return "spec_dt " + EQUIV[(a[1], a[2])]
+        if op == "cmp" and (a[1], a[2]) in EQUIV and (a[1], a[3]) in EQUIV:
+            return "spec_dt_order %s %s" % (EQUIV[(a[1], a[2])], EQUIV[(a[1], a[3])])
+        return None
+    if op in ("xsv", "pe", "pa", "dv") and type_base(a[1]) == "duration":
+        if op == "dv" and collapse(unhx(a[2])) != unhx(a[2]):
+            return None
+        u = "".join(chr(c) for c in collapse(unhx(a[2])))
+        import re as _re
+        if any(len(x) > 9 for x in _re.findall(r"[0-9]+", u + a[1])):
+            return None       # numbers are C ints
+        return "spec_dur %s %s" % (a[1], a[2])
+    if op == "cmp" and a[1] == "duration":
+        return "spec_dur_order %s %s" % (a[2], a[3])
     if op in ("xsv", "pe", "pa") and a[1] == "date":
         u = collapse(unhx(a[2]))
         k = 1 if u[:1] == [0x2D] else 0
@@ -841,7 +998,12 @@ def spec_judgement(req, impl, spec):
         if spec in ("notlex", "none"):
             return None
         return "ok" if impl == spec else "violates"
-    if op == "cmp" and a[1] == "dateTime":
+    if op == "cmp" and a[1] == "duration":
+        if spec == "notlex":
+            return None
+        want = "-1" if spec == "2" else spec
+        return "ok" if impl == want else "violates"
+    if op == "cmp" and (a[1] == "dateTime" or a[1] in GTYPES):
         if spec == "notlex":
             return None
         want = "-1" if spec == "2" else spec       # DateTimeValidator::compare reports INDETERMINATE as -1
@@ -872,6 +1034,9 @@ def spec_judgement(req, impl, spec):
 def attribute(req, mode):
     """the listed finding a Spec violation on this request belongs to (precise predicates), or None"""
     a = req.split()
+    if len(a) > 2 and a[1] in GTYPES and all((a[1], h) in EQUIV for h in a[2:]):
+        # same code paths as dateTime: classify the equivalent dateTime request
+        return attribute(" ".join([a[0], "dateTime"] + [EQUIV[(a[1], h)] for h in a[2:]]), mode)
     if a[0] in ("xsv", "dv", "pe", "pa", "xsc", "can", "cmp") and type_base(a[1]) == "decimal":
         for h in a[2:]:
             u = collapse(unhx(h))
@@ -880,6 +1045,20 @@ def attribute(req, mode):
             if u == [0x2E]:
                 return "F10"        # the literal is an optional sign followed by a lone '.'
     base = type_base(a[1]) if len(a) > 1 else ""
+    if base == "duration":
+        import re as _re
+        texts = ["".join(chr(c) for c in collapse(unhx(h))) for h in a[2:]]
+        facet = a[1]
+        if a[0] != "cmp" and "[" not in a[1]:
+            body = texts[0].lstrip("-")
+            if _re.search(r"(?<![0-9])[YMDHS.]", body[1:].replace("T", "")) or _re.search(r"T[YMDHS.]", body):
+                return "F35"        # a designator (or the decimal point) that is not preceded by a digit
+            return None
+        if any("." in t for t in texts) or "." in facet:
+            return "F36"            # fractional seconds are ignored by compare
+        if any(t.startswith("-") for t in texts) or "=-" in facet:
+            return "F37"            # negative durations go through time-zone normalisation in the EQUAL shortcut
+        return None
     if a[0] == "cmp" and base in ("double", "float"):
         return "F34"                # one operand NaN: -1 * INDETERMINATE = -2 is returned
     if "double" in base or "float" in base:
